@@ -310,7 +310,7 @@ func checkSticky(run *Run, prop, who string, rt *Task) {
 			continue
 		}
 		n++
-		if r.errVal != first.errVal {
+		if !sameError(r.errVal, first.errVal) {
 			run.fail(prop, "error-not-sticky", "different-error", "%s: NextReader returned %q and later %q", who, first.ErrText, r.ErrText)
 			return
 		}
@@ -366,4 +366,16 @@ func sweepC05(r *PRNG, k, S int) *Scenario {
 	// only a plain timeout (a deadline that expired and was extended) is ever transient; see DESIGN 14.1
 	c.Transient = c.Style == fTimeout && k%12 < 6
 	return scn
+}
+
+// sameError: identical value, or the same dynamic type with the same text (a
+// library may wrap or rebuild an equal error value on every call).
+func sameError(a, b error) bool {
+	if a == b {
+		return true
+	}
+	if a == nil || b == nil {
+		return false
+	}
+	return fmt.Sprintf("%T", a) == fmt.Sprintf("%T", b) && a.Error() == b.Error()
 }
